@@ -660,16 +660,34 @@ def c27_driver(chk, pid, tier, seed, spec, t0):
         i, cj = ok_exports[0]
         rj = os.path.join(outdir, "report-valgrind.json")
         vlog = os.path.join(outdir, "valgrind.log")
-        cmd = ["valgrind", "--tool=memcheck", "--error-limit=no", "--num-callers=30", f"--log-file={vlog}", py, driver, pkg_parent, cj, rj,
+        # --undef-value-errors=no: this CPython build is not valgrind-clean (its own list/tuple item loads are reported as
+        # "uninitialised" and the taint propagates into the inlined pyo3 code that reads ob_type), so definedness reports cannot be
+        # attributed; addressability errors (invalid read / write / free: use-after-free, overflows, double frees) can
+        cmd = ["valgrind", "--tool=memcheck", "--undef-value-errors=no", "--error-limit=no", "--num-callers=30", f"--log-file={vlog}", py, driver, pkg_parent, cj, rj,
                "--battery", "--limit", str(t["valgrind_cases"])]
         try:
             pr = subprocess.run(cmd, cwd=chk.VERIF, env=dict(penv, PYTHONMALLOC="malloc"), stdout=subprocess.PIPE, stderr=subprocess.PIPE, text=True, timeout=t["timeout"])
             text = open(vlog, errors="replace").read() if os.path.exists(vlog) else ""
             blocks = re.split(r"\n==\d+== \n", text)
-            ours = [b for b in blocks if re.search(r"Invalid (read|write)|uninitialised|Invalid free|Mismatched free|definitely lost", b)
-                    and ("trustfall.cpython" in b or "libtrustfall" in b) and not re.search(r"definitely lost", b)]
+            def first_real_frame(b):
+                # innermost frame that is not libc / valgrind's replacement functions
+                for fr in re.findall(r"(?:at|by) 0x[0-9A-F]+: .*", b):
+                    if re.search(r"vgpreload|/libc\.so|/libc-|ld-linux|\(vg_replace", fr):
+                        continue
+                    return fr
+                return ""
+            def is_ours(b):
+                if "trustfall.cpython" not in b and "libtrustfall" not in b:
+                    return False
+                if re.search(r"Invalid (read|write)|Invalid free|Mismatched free", b):
+                    return True   # never CPython noise: any such error with the module on the stack counts
+                # uninitialised-value reports inside libpython are CPython's own (it is not built for valgrind);
+                # they count only when the faulting instruction itself is in the extension module
+                return bool(re.search(r"uninitialised|Conditional jump", b)) and "trustfall" in first_real_frame(b)
+            ours = [b for b in blocks if is_ours(b)]
             allerr = [b for b in blocks if re.search(r"Invalid (read|write)|uninitialised|Invalid free|Mismatched free", b)]
-            notes["valgrind"] = {"cases": t["valgrind_cases"], "error_blocks_total": len(allerr), "error_blocks_through_extension_module": len(ours), "rc": pr.returncode}
+            notes["valgrind"] = {"cases": t["valgrind_cases"], "error_blocks_total": len(allerr), "error_blocks_attributed_to_the_extension_module": len(ours),
+                                 "error_blocks_inside_libpython_not_counted": len([b for b in allerr if b not in ours]), "rc": pr.returncode}
             if pr.returncode != 0 or not os.path.exists(rj):
                 m["inconclusive"].append(f"valgrind stage: interpreter rc={pr.returncode}")
             else:
